@@ -3,13 +3,13 @@ import evmrun
 from vlib import *
 
 MANIFEST_ENTRY = dict(engine="EvmCosmos", design="§4 C05",
-    technique="TLA+ spec EvmCosmos.tla (Ideal = meaning of the call tree without the sub-trees of reverted frames; M with the 'no_cosmos_revert' mechanism); EvmCosmosGen.tla enumerates every placement of the reverting frame (frame that made the precompile call, out of gas, sibling, grand-parent, top level, with value moved) x precompile methods, model-checked by TLC; each tree compiled to contracts and run by real DeliverTx; TLC trace spec compares all projected Cosmos and EVM state with Ideal",
+    technique="TLA+ spec EvmCosmos.tla (Ideal = meaning of the call tree without the sub-trees of reverted frames; M with the 'no_cosmos_revert' mechanism); EvmCosmosGen.tla enumerates every placement of the reverting frame (frame that made the precompile call, out of gas, sibling, grand-parent, top level, with value moved) x precompile methods, model-checked by TLC; each tree compiled to contracts and run by real DeliverTx; TLC trace spec compares all projected Cosmos and EVM state with Ideal; EvmCosmosRand.tla draws random call trees (150 in the quick tier, 15000 in the thorough tier) that are executed on the real chain and judged by the same trace specification",
     text="The specification makes the reverted frames explicit: contracts record the success flag of every call they make, so the recorded post-state tells which frames completed; Ideal applies the Cosmos-native effect only of calls in completed frames, and the trace specification compares delegations, unbondings, rewards, withdraw addresses, grants, balances, supply and contract storage with it. TLC checks on the model that the intended design satisfies this for every enumerated tree and that the as-built machine fails exactly through the modelled mechanisms (no Cosmos-side revert; authorization re-validated after the effect).",
     note="Bounded tree shapes (specs/EvmCosmosGen.tla C05Trees); staking/distribution methods only; known placements that leave a trace are listed per class in known_findings.json.")
 
 
 def run(c):
-    evmrun.run_family(c, "C05", "C05", nquick=200, nrand=(0, 15000))
+    evmrun.run_family(c, "C05", "C05", nquick=200, nrand=(150, 15000))
 
 
 def replay(path, quiet=False):
